@@ -287,6 +287,10 @@ def cleanop_corr(run, ctx, NS, r) -> None:
     run.dist("function", "cleanOpId", len(cases))
 
 
+FORMER_F17 = [["foo", "foo", "foo_2"], ["foo", "foo", "foo_2", "foo_2_2"], ["foo_2", "foo", "foo"], ["getItem", "get_item", "get_item_2", "getItem_2_2"],
+              ["foo", "foo", "foo_2", "foo_2", "foo"], ["$", "$", "_2"], ["x", "X", "x_2", "x", "x_3"]]
+
+
 def loops(run, ctx, r, known) -> None:
     drv = ctx.driver
     n = ctx.budget(150, 1500)
@@ -304,6 +308,9 @@ def loops(run, ctx, r, known) -> None:
         reqs.append({"f": "enumMemberNamesOfValues", "a": [vals]}); impls.append(("enumMemberNames", vals, lambda v=vals: impl_enum_member_names(v)))
         # --- op ids (duplicates allowed: two operations may carry the same id)
         reqs.append({"f": "dedupOpIds", "a": [names]}); impls.append(("dedupOpIds", names, lambda x=names: impl_dedup_op_ids(x)))
+        if i < len(FORMER_F17):   # the inputs that used to end with two operations under one method name (F17, repaired)
+            w = FORMER_F17[i]
+            reqs.append({"f": "dedupOpIds", "a": [w]}); impls.append(("dedupOpIds", w, lambda x=w: impl_dedup_op_ids(x)))
         if i % 3 == 0:
             order = decollision_input(uniq)
             reqs.append({"f": "classNames", "a": [order]}); impls.append(("classNames", uniq, lambda x=uniq: impl_decollide(x)[0]))
@@ -331,13 +338,10 @@ def loops(run, ctx, r, known) -> None:
         if isinstance(i, list) and fname == "dedupOpIds":
             NS = _impl()
             meth = [NS.sanitize_method_name(x) for x in i]
-            if len(set(meth)) != len(meth):
-                # known finding F17: a suffixed id collides with an id that already carries that suffix
-                if findings.f17_feature(case, i, meth):
-                    known.hit("F17", {"f": "_deduplicate_operation_ids_globally", "in": case, "methods": meth})
-                else:
-                    run.violation("input", {"f": "dedupOpIds", "in": case}, observed=meth, expected="pairwise distinct method names",
-                                  what=f"operation ids {case} give duplicate method names {meth}")
+            if len(i) != len(case) or len(set(meth)) != len(meth):
+                # (F17 - a suffixed id colliding with an id that already carries that suffix - is repaired: every clash is a violation)
+                run.violation("input", {"f": "dedupOpIds", "in": case}, observed=meth, expected="pairwise distinct method names, one per operation",
+                              what=f"operation ids {case} give duplicate method names {meth}")
 
 
 def search(run: Run, ctx) -> None:
